@@ -50,7 +50,6 @@ def firstLookup {α} (fn : String) (m : List (String × α)) (k : Keys) : Option
 `Build` is written against this view, so "the output depends on the configuration only through …" is a
 statement about `viewOf`. -/
 structure CfgView where
-  isType : String → Bool
   excluded : Keys → Bool
   computed : Keys → Bool
   required : Keys → Bool
@@ -71,8 +70,7 @@ structure CfgView where
 
 /-- the view of a configuration (the key order of each lookup is the regenerated one) -/
 def viewOf (cfg : Config) : CfgView :=
-  { isType := fun n => cfg.types.contains n
-    excluded := flagValue cfg.excludeFields
+  { excluded := flagValue cfg.excludeFields
     computed := flagValue cfg.computedFields
     required := flagValue cfg.requiredFields
     sensitive := flagValue cfg.sensitiveFields
@@ -240,6 +238,36 @@ def goTypeOf (cfg : CfgView) (ctx : MsgCtx) (f : FieldD) : String :=
     else gogoGoType f
   prependPackageNameIfMissing cfg.importOverride raw cfg.defaultPackageName
 
+/-- `GetNameSnake` -/
+def snakeOf (cfg : CfgView) (f : FieldD) (keys : Keys) : String :=
+  match cfg.nameOverride keys with
+  | some v => v
+  | none =>
+    let j := jsonName (f.jsonTag.map String.toList)
+    if j != [] then String.ofList j else String.ofList (snakeCase f.name.toList)
+
+/-- `GetPlanModifiers` -/
+def planModsOf (cfg : CfgView) (keys : Keys) : List String :=
+  match cfg.planModifiers keys with
+  | some v => v
+  | none => if cfg.useStateForUnknownByDefault && cfg.computed keys
+            then ["github.com/hashicorp/terraform-plugin-framework/tfsdk.UseStateForUnknown()"] else []
+
+/-- `GetComment` of a field (map value fields have none: their index is -1) -/
+def commentOf (f : FieldD) (hasComment : Bool) : String :=
+  if hasComment then (match f.comment with | some c => String.ofList (fieldComment c.toList) | none => "") else ""
+
+/-- `IsCustomType` -/
+def isCustomOf (cfg : CfgView) (f : FieldD) (keys : Keys) : Bool := f.customType != "" || (cfg.customType keys).isSome
+
+/-- `setCustomType`: the suffix of the hook functions -/
+def suffixOf (cfg : CfgView) (f : FieldD) (keys : Keys) : String :=
+  if !isCustomOf cfg f keys then "" else
+  let customType := match cfg.customType keys with | some c => c | none => f.customType
+  match cfg.suffix customType with
+  | some s => s
+  | none => stripChars customType ['/', '.']
+
 mutual
 
 /-- `BuildMessage` (+ `BuildFields`) for a message that is not filtered out. `fuel` bounds the nesting depth
@@ -277,19 +305,10 @@ def buildFieldCore (fuel : Nat) (cfg : CfgView) (req : Request) (ctx : MsgCtx) (
   if cfg.excluded keys then .ok []
   else
     let name := goNameS f.name
-    let snake :=
-      match cfg.nameOverride keys with
-      | some v => v
-      | none =>
-        let j := jsonName (f.jsonTag.map String.toList)
-        if j != [] then String.ofList j else String.ofList (snakeCase f.name.toList)
+    let snake := snakeOf cfg f keys
     let isComputed := cfg.computed keys
-    let planMods :=
-      match cfg.planModifiers keys with
-      | some v => v
-      | none => if cfg.useStateForUnknownByDefault && isComputed
-                then ["github.com/hashicorp/terraform-plugin-framework/tfsdk.UseStateForUnknown()"] else []
-    let comment := if hasComment then (match f.comment with | some c => String.ofList (fieldComment c.toList) | none => "") else ""
+    let planMods := planModsOf cfg keys
+    let comment := commentOf f hasComment
     match getTerraformType cfg f isMap isRepeated goType keys.path with
     | .error e => .error e
     | .ok tf =>
@@ -348,12 +367,8 @@ def buildFieldCore (fuel : Nat) (cfg : CfgView) (req : Request) (ctx : MsgCtx) (
           | .error e => .error e
           | .ok (info, mapV) =>
             -- custom type
-            let isCustom := f.customType != "" || (cfg.customType keys).isSome
-            let customType := match cfg.customType keys with | some c => c | none => f.customType
-            let suffix := if !isCustom then "" else
-              match cfg.suffix customType with
-              | some s => s
-              | none => stripChars customType ['/', '.']
+            let isCustom := isCustomOf cfg f keys
+            let suffix := suffixOf cfg f keys
             let mapValIsMessage := match mapV with | some v => v.info.tf.isMessage | none => false
             let kind := kindOf isCustom isMap mapValIsMessage isRepeated info.tf.isMessage
             let (ooName, ooType) :=
@@ -379,7 +394,7 @@ def defaultFuel (req : Request) : Nat := 2 * (req.allFiles.flatMap (·.messages)
 
 /-- `BuildMessage(plugin, message, true, "")` for one top-level message: `none` when it is not listed in `types`. -/
 def buildRoot (cfg : Config) (req : Request) (desc : MsgD) : Except BuildError (Option Msg) :=
-  if !(viewOf cfg).isType desc.name then .ok none
+  if !cfg.types.contains desc.name then .ok none
   else match buildMessage (defaultFuel req) (viewOf cfg) req desc true "" with
     | .error e => .error e
     | .ok m => .ok (some m)
